@@ -426,6 +426,13 @@ def single_and_enum_forms(ctx, rng, n):
                     dflt = cs.T()
                     facts = (got, dflt == zero, dflt.dumps(), bool(dflt), len(cs.T))
                     exp = ([want] * 6, True, bytes(size), False, size)
+                    if st == "char":
+                        # the value of a char bit-field may be handed over as a one-byte string as well
+                        asb = cs.T()
+                        asb.a = b"\x01"
+                        one = 1 if endian == "<" else 1 << (8 - bits)
+                        facts += (asb.dumps(),)
+                        exp += (bytes([one]),)
                 except Exception as e:  # noqa: BLE001
                     ctx.violation("single-forms", f"single-bit-field-structure-raises:{type(e).__name__}",
                                   dict(det, error=lib.exc_sig(e)))
